@@ -154,12 +154,14 @@ func (g *Gen) anyItem(alpha []string, parts int) string {
 		return g.item(fmt.Sprintf("obj:%d:s=%s:g=%s:e=%s", mask, hx(r.text(alpha, parts)), hx(r.text(alpha, parts)), hx(r.text(alpha, parts))))
 	case k == 18:
 		inner := g.strItem(r.text(alpha, parts))
+		g.do("probe " + inner) // the text and size the nested cell will copy are the library's: observe them here
 		if r.chance(1, 3) {
 			return g.item("cellp:" + inner)
 		}
 		return g.item("cell:" + inner)
 	default:
 		inner := g.strItem(r.text(alpha, parts))
+		g.do("probe " + inner)
 		return g.item("cellptr:" + inner)
 	}
 }
